@@ -206,17 +206,19 @@ pub fn gen_case(rng: &mut Rng) -> Case {
     Case { naxes, rules }
 }
 
-/// the documented ≥65-rule reproduction (DESIGN §7 F5), parameterised by the number of rules
+/// the documented ≥65-rule reproduction (DESIGN §7 F5), parameterised by the number of rules; for 65 rules
+/// it is exactly `manyRules 63` of lean/FontcProofs/FeatVarsWitness.lean (axis 0 = wdth, axis 1 = wght)
 pub fn directed_case(n_rules: usize) -> Case {
-    let mut rules = vec![RawRule { boxes: vec![vec![(2, Some(0.5), Some(1.0))]], subs: vec![(0, 1000)] }];
+    let mut rules = vec![RawRule { boxes: vec![vec![(1, Some(0.5), Some(1.0))]], subs: vec![(0, 1000)] }];
     for j in 0..n_rules.saturating_sub(2) {
-        rules.push(RawRule { boxes: vec![filler_box(1, j, 2)], subs: vec![(300 + j as u32, 2000 + j as u32)] });
+        let lo = -1.0 + j as f64 / 64.0;
+        rules.push(RawRule { boxes: vec![vec![(1, Some(lo), Some(lo + 1.0 / 64.0))]], subs: vec![(300 + j as u32, 2000 + j as u32)] });
     }
     rules.push(RawRule {
-        boxes: vec![vec![(2, Some(0.25), Some(0.75)), (1, Some(0.5), Some(1.0))]],
+        boxes: vec![vec![(0, Some(0.5), Some(1.0)), (1, Some(0.25), Some(0.75))]],
         subs: vec![(1, 1001)],
     });
-    Case { naxes: 3, rules }
+    Case { naxes: 2, rules }
 }
 
 pub fn to_impl_input(case: &Case) -> Vec<(Region, BTreeMap<GlyphName, GlyphName>)> {
